@@ -260,6 +260,13 @@ def extract():
                              "baseline_adds_usage": (_hourly_requires_usage(t) if fam == "Hourly" else
                                                      _baseline_adds_usage(_class(t, bname)))}
     out["offcycle_target"] = _offcycle_target(_parse(DATA["Billing"][0]))
+    # how _set_data recognises a UTC index (used by the harness for the warning it expects of the code as it is; not
+    # fail-closed: an unrecognised form falls back to the name rule and the correspondence decides)
+    rules = set()
+    for rel, cname in ((DATA["Daily"][0], "_DailyData"), (DATA["Hourly"][0], "_HourlyData")):
+        src = ast.unparse(_method(_class(_parse(rel), cname), "_set_data"))
+        rules.add("offset_and_name" if "index_is_utc(" in src else "name")
+    out["utc_rule"] = rules.pop() if len(rules) == 1 else "name"
     return out
 
 
